@@ -949,6 +949,9 @@ class Translator:
         if k == 'ReturnStmt' and getattr(self, 'seg_exits', False):
             d = self.run_defers(1)
             if n.get('inner'):
+                if self.seg_ret_type is not None and self.seg_ret_type.c().strip() == 'void':
+                    # `return f();` in a function returning void: the call is evaluated, nothing is returned
+                    return '{ %s;\n%s*__seg_exit = 1; return; }\n' % (self.expr(n['inner'][0]), d)
                 e = self.value_expr(n['inner'][0], self.seg_ret_type)
                 return '{ *__seg_retval = %s;\n%s*__seg_exit = 1; return; }\n' % (e, d)
             return '{ %s*__seg_exit = 1; return; }\n' % d
@@ -2294,6 +2297,10 @@ class Translator:
                     raise astdump.ExtractionError('field %s::%s not found (renamed?)' % (q, nm))
                 c = have[nm]
                 self.add_field(sname[7:], nm, self.ctype(c['type']['qualType'], c['type'].get('desugaredQualType')))
+        # enumerations a contract talks about even when the translated code does not mention them
+        for q in self.u.get('need_enums', []):
+            if self.lookup_enum(q) is None:
+                raise astdump.ExtractionError('enum %s not found for need_enums (renamed?)' % q)
         out = ['/* generated by cxx2c from %s -- do not edit */' % self.source]
         out.append(self.u.get('prelude', ''))
         for en, (under, vals) in self.enums.items():
